@@ -887,10 +887,10 @@ def filter_literal(
         return out
 
     elif isinstance(ty, pydsdl.FloatType):
-        if value.denominator == 1:
-            expr = "{}.0".format(value.numerator)
-        else:
-            expr = "({}.0 / {}.0)".format(value.numerator, value.denominator)
+        quotient = "({}.0 / {}.0)".format(value.numerator, value.denominator)
+        expr = "{}.0".format(value.numerator) if value.denominator == 1 else quotient
+        if max(abs(value.numerator), value.denominator) >= 2**53:  # operands are not exact doubles: the quotient of
+            expr = repr(float(value))  # the rounded operands can be off by more than 1 ULP; emit the rounded value.
         cast = filter_type_from_primitive(language, ty)
         return cast_format.format(type=cast, value=expr)
 
